@@ -135,7 +135,7 @@ def gen_case(rng, i):
     # nodes that must be ignored
     extra = []
     for cid, mut in (('HP_0100001', 'PROPERTY'), ('HP_0100002', 'INDIVIDUAL'), ('HP_0100003', None), ('MP_0000001', 'CLASS'), ('GO_0000002', 'CLASS'),
-                     ('HP_0100004', 'DATATYPE')):
+                     ('HP_0100004', 'DATATYPE'), ('HPO_0000003', 'CLASS'), ('HPX_0000004', 'CLASS'), ('H_0000005', 'CLASS'), ('hp_0000006', 'CLASS')):
         if rng.random() < 0.5:
             node = {'id': PURL + cid, 'lbl': 'ignored ' + cid}
             if mut is not None:
@@ -161,7 +161,8 @@ def gen_case(rng, i):
         elif kind == 'dangling':
             edges.append({'sub': PURL + a, 'pred': 'is_a', 'obj': PURL + 'HP_0999999'})
         elif kind == 'foreign':
-            edges.append({'sub': PURL + a, 'pred': 'is_a', 'obj': PURL + 'MP_0000001'})
+            edges.append({'sub': PURL + rng.choice(['MP_0000001', 'HPO_0000003', 'HPX_0000004', 'H_0000005']), 'pred': 'is_a', 'obj': PURL + a}
+                         if rng.random() < 0.5 else {'sub': PURL + a, 'pred': 'is_a', 'obj': PURL + rng.choice(['MP_0000001', 'HPO_0000003', 'hp_0000006'])})
         elif kind == 'nonpurl':
             edges.append({'sub': 'http://example.org/x', 'pred': 'is_a', 'obj': PURL + b})
         else:
